@@ -9,6 +9,7 @@ import (
 
 	"github.com/lindb/lindb/flow"
 	"github.com/lindb/lindb/kv"
+	"github.com/lindb/lindb/kv/table"
 	"github.com/lindb/lindb/pkg/bit"
 	"github.com/lindb/lindb/pkg/encoding"
 	"github.com/lindb/lindb/pkg/timeutil"
@@ -303,3 +304,5 @@ func viewString(view map[viewKey]*viewVal) string {
 	}
 	return sb.String()
 }
+
+func tableFileNumber(n int64) table.FileNumber { return table.FileNumber(n) }
